@@ -230,7 +230,7 @@ def run(ctx):
 
 
 def replay(case, ctx):
-    emb = tuple(case['embedding'])
+    emb = tuple(case.get('embedding') or ctx.embedding)
     h = tuple(case['history'])
     S.install()
     (st, r), (st0, r0) = core.pmap_isolated(_history, [(h, emb), ((h[-1],), emb)])
